@@ -348,7 +348,12 @@ def flatten_cfg(world, md=None):
         if isinstance(t, gtirb.ProxyBlock):
             tk = ("proxy", frozenset(s.name for s in t.references))
         elif isinstance(t, gtirb.ByteBlock):
-            tk = ("addr", t.address) if isinstance(t, gtirb.CodeBlock) else ("data", t.address)
+            ta = t.address
+            if t.size == 0 and isinstance(t, gtirb.CodeBlock):
+                # a kept zero-sized block denotes the listing position of the
+                # next byte of its section (its own interval may be empty)
+                ta = _next_byte_address(t)
+            tk = ("addr", ta) if isinstance(t, gtirb.CodeBlock) else ("data", ta)
         else:
             tk = ("other", repr(t))
         lab = e.label
@@ -356,6 +361,22 @@ def flatten_cfg(world, md=None):
             (lab.type.name if lab else None, bool(lab.conditional) if lab else None, bool(lab.direct) if lab else None, tk)
         )
     return edges, buried, dangling, last_of
+
+
+def _next_byte_address(block):
+    from .driver import sorted_intervals
+
+    bi = block.byte_interval
+    sect = bi.section
+    ivs = sorted_intervals(sect)
+    idx = next(i for i, x in enumerate(ivs) if x is bi)
+    if block.offset < bi.size:
+        return block.address
+    for x in ivs[idx + 1 :]:
+        if x.size and x.address is not None:
+            return x.address
+    ends = [x.address + x.size for x in ivs if x.address is not None]
+    return max(ends) if ends else block.address
 
 
 def check_c03(mt, sess):
@@ -382,6 +403,8 @@ def check_c03(mt, sess):
         armed = False
         for u in model.sections[sname]:
             for t in u.toks:
+                if t.is_bytes() and t.origin == "pad":
+                    continue
                 if t.is_bytes():
                     if armed_src is not None:
                         proxy_fall.add(armed_src)
